@@ -207,11 +207,13 @@ def init_bools(ctx, m, h, constructed=False):
         if sub:
             opened = [p for p in m.run(sub[0], dict(out)) if p.outcome == 'return' and m.emitted(p)]
             if opened:
-                post = m.post_state(opened[0])
-                if all({k: v for k, v in m.post_state(q).items() if isinstance(v, bool)} ==
-                       {k: v for k, v in post.items() if isinstance(v, bool)} for q in opened):
-                    out = dict(out)
-                    out.update({k: v for k, v in post.items() if isinstance(v, bool)})
+                posts = [{k: v for k, v in m.post_state(q).items() if isinstance(v, bool)} for q in opened]
+                agreed = {k: v for k, v in posts[0].items() if all(q.get(k) is v for q in posts)}
+                # what every request-writing path of subscribe() leaves behind (a channel's other flags differ with
+                # the presence of a publisher / subscriber and keep the constructor's value)
+                out = dict(out)
+                out.update({k: v for k, v in agreed.items() if out.get(k) is not v and k not in out or
+                            (k in out and out[k] is not v and all(q.get(k) is v for q in posts))})
     ctx.cache[key] = out
     return out
 
